@@ -269,6 +269,12 @@ theorem rank_count (cfg : Cfg) (id : Nat) (w h : Rat) (ordered : List Lay) (c : 
     (placeAll cfg id w h ordered c).levels.length = maxDepth ordered + 1 :=
   placeAll_levels_length cfg id w h ordered c
 
+/-- The number of rank bounds of the finished layout equals `m_depth` as the `Tree` constructor's BFS computes
+    it (`Key.depth`, tied to the C++ value on every subtree by the `isomv` lines of the harness). -/
+theorem symmetricLayout_rank_count_eq_depth (cfg : Cfg) (convex : Bool) (id : Nat) (w h : Rat) (kids : Forest) :
+    (symmetricLayout cfg convex id w h kids).levels.length = (mkKey (keys kids)).depth :=
+  layoutWith_depth isomOrder_perm cfg convex id w h kids
+
 /-- at the moment any c-tree `t` of the placement sequence `pre ++ t :: post` is placed, the parent state has
     at least as many ranks below the root as `t` has ranks -/
 theorem overlay_second_equation_unused (cfg : Cfg) (id : Nat) (w h : Rat) (c : Bool) (pre post : List Lay) (t : Lay) :
